@@ -170,9 +170,11 @@ func ruleC03_8(c *Ctx) {
 			a := has.Common().Args
 			if org(a[0]) == "p0" && org(a[1]) == "key(p1)" {
 				for _, cu := range condUsers(has.Value(), false) {
+					// the branch for a missing element runs, by plain jumps, into a return of false (directly, or through
+					// a flag that is false on that path)
 					fb := branchTaken(cu, false)
-					if r, ok := fb.Instrs[len(fb.Instrs)-1].(*ssa.Return); ok {
-						if cv, ok := r.Results[0].(*ssa.Const); ok && cv.Value.String() == "false" {
+					if r, path := followJumps(cu.If.Block(), fb); r != nil && len(r.Results) == 1 {
+						if cv, ok := phiAlong(r.Results[0], path).(*ssa.Const); ok && cv.Value != nil && cv.Value.String() == "false" {
 							okMiss = true
 						}
 					}
